@@ -243,6 +243,30 @@ CHECKS = {
              'all consumers ended, next round after renew); stop bound is in clock units under zero scheduling latency; process '
              'variant (multiprocessing queues/lock) covered by the theorems only.',
         ref='§5 C17', engine='E1-detsched+lean'),
+    'C18': dict(
+        technique='Lean 4 proof (byte-level round-trip theorems for the record framing and the Connection framing; inductive '
+                  'invariants, progress and a decreasing measure over LTS models of the client/server multiplexing and of the '
+                  'two crossed FIFOs) + byte-exact differential runs and event-trace replay of the real code through the models',
+        text='Frame: C18_frame_first / _roundtrip / _truncated / _chunking / _roundtrip_chunked / _prefix_stable — read_record returns exactly '
+             'what write_record wrote (id, encoder, payload bytes) for arbitrary payload bytes and any number of records, a cut stream never '
+             'yields a phantom record, and every chunking of every byte stream is read like the concatenation. '
+             'Mux: C18_mux_own_response / _handler_payload / _at_most_once / _ids_distinct / _no_unmatched / _progress / _terminates / '
+             '_all_answered / _server_local, C18_stream_order / _stream_complete — for every capacity of the bounded buffers and every interleaving of client senders/receivers, server receivers/responders '
+             'and handler completions over any number of connections and requesters, every future is set once, with the handler\'s '
+             'response or exception to its own payload; nothing is lost; stream() preserves input order; the id-minting rule gives '
+             'distinct live ids. Pipe: C18_pipe_fifo / _no_loss — each endpoint receives exactly what its peer sent, in order, for '
+             'every interleaving and chunking of writes. Tie on every run: real write_record/read_record through an asyncio '
+             'StreamReader under many chunkings vs the model byte-exactly; real unix-socket SocketServer+SocketClient (1-4 connections, '
+             '1-16 requesters, stream(), payloads to multi-MB, generated latencies/failures) with the complete event trace replayed '
+             'through Mux.step; real pipe.Server/Client traces replayed through Pipe.step; monitors evaluate the property on each run.',
+        note='Lean 4 kernel + axioms {propext, Classical.choice, Quot.sound}; hand-written models tied to /repo by differential runs / '
+             'trace replay on the cases generated per run (sampled); E4 (sockets, processes, FIFOs): OS schedule sampled, the '
+             'quantifier over interleavings is carried by the theorems; modelled not verified: StreamReader readuntil/readexactly, '
+             'pickle round trip, FIFO order of queues/sockets/FIFOs, dict, Future, CPython id() distinctness among live objects, '
+             'multiprocessing.Connection framing (compared byte-exactly on samples). Assumed: the client registers a request id before '
+             'its receiver processes the response to it (suspected window F17; monitored on every run, never exhibited; '
+             'Legacy/MuxWindow.lean shows what would fail); pipe endpoints stay open while messages are in transit.',
+        ref='§5 C18', engine='E3-differential+E4-processes+lean'),
 }
 
 CHECKS['C06'] = dict(
